@@ -37,12 +37,40 @@ class Printer:
         self.memo = {}
         self.divmod = {}     # (x, c) -> (q, r)
         self.extra = []      # extra assertions (div/mod elimination facts)
+        self.items = []      # ordered declarations and definitions
+        self.sorts = {}
+        self.ndefs = 0
+
+    def sort_of(self, t):
+        r = self.sorts.get(t)
+        if r is None:
+            k = t[0]
+            if k == 'a' and t[1] == 'ite':
+                r = self.sort_of(t[4])
+            elif k == 'a' and t[1] == 'select':
+                r = self.sort_of(t[2])[2]
+            elif k == 'a' and t[1] == 'store':
+                r = self.sort_of(t[2])
+            else:
+                r = T.sort_of(t)
+            self.sorts[t] = r
+        return r
+
+    def share(self, t, r, bound):
+        """name large closed subterms so that the query stays DAG-sized."""
+        if bound or len(r) < 120:
+            return r
+        self.ndefs += 1
+        name = 'd!%d' % self.ndefs
+        self.items.append('(define-fun %s () %s %s)' % (name, sort_str(self.sort_of(t)), r))
+        return name
 
     def declare_var(self, name, sort):
         s = sym(name)
         if s not in self.decls:
             self.decls[s] = '(declare-fun %s () %s)' % (s, sort_str(sort))
             self.order.append(s)
+            self.items.append(self.decls[s])
         return s
 
     def declare_uf(self, op):
@@ -52,6 +80,7 @@ class Printer:
             args, res = T.uf_sorts[op]
             self.decls[s] = '(declare-fun %s (%s) %s)' % (s, ' '.join(sort_str(a) for a in args), sort_str(res))
             self.order.append(s)
+            self.items.append(self.decls[s])
         return s
 
     def p(self, t, bound=frozenset()):
@@ -99,6 +128,7 @@ class Printer:
             r = 'true'
         else:
             r = '(%s %s)' % (op, ' '.join(self.p(x, bound) for x in args))
+        r = self.share(t, r, bound)
         self.memo[key] = r
         return r
 
@@ -299,8 +329,9 @@ def build_query(hyps, goal, quantified=False, models=True, extra_instances=True)
         k += 1
     lines.append('(set-option :produce-models true)' if models else '')
     lines.append('(set-logic ALL)')
-    for s in pr.order:
-        lines.append(pr.decls[s])
+    # declarations/definitions were collected in dependency order while printing;
+    # assertions come after all of them
+    lines.extend(pr.items)
     lines.extend(body)
     lines.append('(check-sat)')
     if models:
